@@ -62,3 +62,21 @@ Theorem C05_exception_shares_the_blamed_context : forall c lo b ts st rs st',
      snd st' = if ImageThreads.t_crash c t then MiniDump.CCtx (snd r) else MiniDump.CCtxAddr (snd r) (unle (slice (Image.it_ctx t) 248 8))).
 Proof. exact ImageThreads.cc_says. Qed.
 Print Assumptions C05_exception_shares_the_blamed_context.
+
+(* End to end (structural model -> image): the record in the FINAL image carries exactly the fields the structural model
+   [exception_fields] prescribes (signal number and code as 32-bit values, the fault address; or the dump-requested code with the
+   blamed thread's instruction pointer, 0 when that thread is not listed), names the blamed thread, and its context location is
+   the one the thread list recorded for the (last) listed thread with the blamed id - no context when there is no such thread. *)
+Theorem C05_whole_image_exception_of_world : forall c dirs lg s',
+  Image.image c MiniDump.empty_wst = MemWriter.Ok ((dirs, lg), s') -> Hoare.small (Hoare.blen s') ->
+  exists rs blocks cc off,
+    ImageThreads.run_rel (ImageThreads.thread_says c 248) (Writer.w_buf s') (Image.ic_threads c) ([], MiniDump.CNone) rs (blocks, cc) /\
+    (let '(code, flags, addr) := exception_fields (Image.ic_crash c) (ImageThreads.req_ip_of cc) in
+     slice (Writer.w_buf s') off 168 = Image.enc_exception (Image.ic_blamed c) code flags addr (ImageThreads.ctx_of cc)) /\
+    nth_error dirs 3 = Some (MiniDump.T_EXC, {| MemWriter.l_rva := N.of_nat off; MemWriter.l_size := 168 |}) /\
+    ((cc = MiniDump.CNone /\ Forall (fun t => ImageThreads.t_blamed c t = false) (Image.ic_threads c)) \/
+     (exists t r, In (t, r) (combine (Image.ic_threads c) rs) /\ ImageThreads.t_blamed c t = true /\
+        ImageThreads.designates 248 (Writer.w_buf s') (snd r) (Image.it_ctx t) /\
+        ImageThreads.ctx_of cc = snd r /\ (Image.ic_crash c = None -> ImageThreads.req_ip_of cc = Some (unle (slice (Image.it_ctx t) 248 8))))).
+Proof. exact ImageThreads.image_exception_of_world. Qed.
+Print Assumptions C05_whole_image_exception_of_world.
